@@ -35,6 +35,41 @@ func checkC17(c *Ctx) {
 	c.guard(p, "C17.threshold", "share accepted only if g^value equals the commitment evaluated at the identifier", ver, GuardSpec{Args: okLen, Assumes: []Assume{calleeAssume(latFalse, -1, "invoke (group.Element).IsEqual")}})
 	c.depRule(p, "C17.dep", "verdict depends on share identifier, value and commitment", ver, sinkResult(), "param:s", "param:c")
 	c.loopPassesThrough(p, "C17.dep", "every commitment coefficient enters the evaluation", ver, okLen, "sum.Add(sum, c[i])", p.isCallTo(0, nil, "invoke (group.Element).Add"))
+	// Verify insists on exactly t+1 commitments: the dealer has to publish t+1 whatever the values of the
+	// coefficients are (the degree of the polynomial drops when a drawn coefficient is zero)
+	if cm := p.Func(ss, "SecretSharing", "CommitSecret"); cm == nil {
+		c.undecided("C17.threshold", "CommitSecret publishes t+1 commitments", "anchor function does not resolve", "")
+	} else {
+		construct := fname(cm) + ": the number of commitments is t+1 whatever the coefficients are"
+		d := p.Dep().analyse(cm)
+		n, badDep, noT := 0, false, false
+		for _, b := range cm.Blocks {
+			for _, in := range b.Instrs {
+				ms, ok := in.(*ssa.MakeSlice)
+				if !ok {
+					continue
+				}
+				n++
+				labels := d.fullDep(ms.Len)
+				if d.hasLabel(labels, "call:(math/polynomial.Polynomial).Degree") {
+					badDep = true
+				}
+				if !d.hasLabel(labels, "param:"+currentParamName(cm, "ss")) {
+					noT = true
+				}
+			}
+		}
+		switch {
+		case n == 0:
+			c.undecided("C17.threshold", construct, "no slice is made in the function", p.fnPos(cm))
+		case badDep:
+			c.bad("C17.threshold", construct, "the length of the commitment is the degree of the polynomial plus one, which is below t+1 when the leading coefficient is zero; Verify then refuses every dealt share", p.fnPos(cm))
+		case noT:
+			c.bad("C17.threshold", construct, "the length of the commitment does not depend on the sharing's threshold", p.fnPos(cm))
+		default:
+			c.ok("C17.threshold", construct, fmt.Sprintf("%d slice length(s): derived from the receiver, not from Polynomial.Degree", n), p.fnPos(cm))
+		}
+	}
 	c.guard(p, "C17.threshold", "dealing a share for identifier zero is refused", p.Func(ss, "SecretSharing", "ShareWithID"),
 		GuardSpec{Assumes: []Assume{calleeAssume(latTrue, -1, "invoke (group.Scalar).IsZero")}, Success: &successSpec{"returns (does not panic)", func([]lat) bool { return true }}})
 	always := successSpec{"returns (does not panic)", func([]lat) bool { return true }}
